@@ -92,6 +92,14 @@ pub fn exhaustion(p: &str) -> bool {
 
 fn safe_step(m: &mut dyn Machine, op: OpId) -> Step {
     match guard(|| m.step(op)) {
+        // messages quote values: keep them bounded (char boundary safe)
+        Ok(Step::Violation(s)) if s.len() > 1500 => {
+            let mut end = 1500;
+            while !s.is_char_boundary(end) {
+                end -= 1;
+            }
+            Step::Violation(format!("{}… ({} bytes in all)", &s[..end], s.len()))
+        }
         Ok(s) => s,
         Err(msg) => Step::Violation(format!("panic escaped the oracle's guards: {msg}")),
     }
@@ -645,4 +653,55 @@ pub fn replay_history(factory: Factory, ops: &[OpId]) -> ReplayOutcome {
         Ok(Ok(())) => ReplayOutcome { descs, result: "ok".into(), violated: false },
         Ok(Err(s)) | Err(s) => ReplayOutcome { descs, result: format!("final state: VIOLATION: {s}"), violated: true },
     }
+}
+
+/// Positional iterator methods an implementation may override (`nth`, and through it `skip` / `step_by`): every
+/// one must agree with stepping by `next`. `same(item, j)` decides whether `item` is the j-th element of the
+/// expected sequence of `n` elements. Bounded: no call consumes an unbounded iterator.
+pub fn iter_laws<I: Iterator + Clone>(it: &I, n: usize, same: &dyn Fn(I::Item, usize) -> Result<(), String>) -> Result<(), String> {
+    let mut ks: Vec<usize> = (0..n.min(10)).collect();
+    ks.extend([n / 2, n.saturating_sub(2), n.saturating_sub(1), n, n + 1]);
+    ks.sort();
+    ks.dedup();
+    for &k in &ks {
+        let mut c = it.clone();
+        match c.nth(k) {
+            Some(x) if k < n => same(x, k).map_err(|e| format!("nth({k}): {e}"))?,
+            Some(_) => return Err(format!("nth({k}) yields an item although there are only {n}")),
+            None if k < n => return Err(format!("nth({k}) yields None although there are {n} items")),
+            None => {}
+        }
+        // the iterator continues behind the element nth returned
+        match c.next() {
+            Some(x) if k + 1 < n => same(x, k + 1).map_err(|e| format!("next() after nth({k}): {e}"))?,
+            Some(_) => return Err(format!("next() after nth({k}) yields an item although there are only {n}")),
+            None if k + 1 < n => return Err(format!("next() after nth({k}) yields None although there are {n} items")),
+            None => {}
+        }
+        let mut j = k;
+        for x in it.clone().skip(k).take(n + 1) {
+            if j >= n {
+                return Err(format!("skip({k}) yields more than the remaining {} items", n - k.min(n)));
+            }
+            same(x, j).map_err(|e| format!("skip({k}) position {j}: {e}"))?;
+            j += 1;
+        }
+        if j < n {
+            return Err(format!("skip({k}) yields {} items, expected {}", j - k, n - k));
+        }
+    }
+    for step in [2usize, 3] {
+        let mut j = 0;
+        for x in it.clone().step_by(step).take(n + 1) {
+            if j >= n {
+                return Err(format!("step_by({step}) yields too many items"));
+            }
+            same(x, j).map_err(|e| format!("step_by({step}) at position {j}: {e}"))?;
+            j += step;
+        }
+        if j < n {
+            return Err(format!("step_by({step}) stops before position {j} of {n}"));
+        }
+    }
+    Ok(())
 }
